@@ -158,6 +158,13 @@ def impl_run(case):
                     h = H(collections.OrderedDict(data))
                 else:
                     h = H(d)
+                    # the caller goes on using its dict: the histogram built from it does not follow
+                    snap = (hist_items(h), h.total)
+                    for kk in list(d)[:1]:
+                        d[kk] += 3
+                    d[10 ** 6] = 1
+                    if (hist_items(h), h.total) != snap or h.total != sum(h.counts()):
+                        return {"exc": "AliasesCallersDict"}
             elif form == "bare":
                 bare = [o for o, _ in data]
                 if cont == "range":
